@@ -2,6 +2,23 @@
 import json, os
 V = os.path.dirname(os.path.dirname(os.path.abspath(__file__)))
 CLAIMED = {
+ "C12": dict(
+   text="Proof: Coq theorems (Coquelicot) that the helper's closed form IS the Riemann integral of m^(a+k-1) on [m1,m2] in both branches, is positive, additive, "
+        "brackets consecutive moments (mean mass inside the bin), has the stated derivative, returns NaN exactly below the threshold and on degenerate/inverted "
+        "intervals, and that the array form is element-wise - for all real a, k and 0<m1<m2; plus a machine-checked refutation of the absolute-threshold clause. "
+        "The two source expressions are re-extracted from masses.py on every run and proved equal to the model kernels (T2); the float instance is compared with "
+        "the implementation (T3) and a 60-digit reference integral is the oracle.",
+   design="8/C12", technique="Coq/Coquelicot real-analysis proofs + regenerated formula tie (ast translator) + float correspondence + decimal-reference oracle",
+   note="Trusted: Coq kernel; Reals/Coquelicot/Interval axioms listed in evidence; ast translator; FloatFun pow/ln; the 1e-9 rounding-accuracy clause is not a theorem "
+        "over R - it is measured per case (two listed known findings: absolute NaN threshold, cancellation in the generic branch)."),
+ "C14": dict(
+   text="Proof: for all a0>0, a1>0, a2<0 the lifetime is strictly decreasing, the turn-off mass strictly decreasing and infinite up to a0, the two are mutual "
+        "inverses, and the hand-differentiated sweep speed is minus the derivative of the turn-off function (is_derive) and positive; the nearest-row lookup minimises "
+        "|grid-FeH|. Every run regenerates the 20 table rows as exact decimals (sign conditions decided by vm_compute, theorems instantiated per row) and re-extracts "
+        "tms, mto and BOTH source copies of dmdt (main model and initial-BH-population model) and proves them equal to the model kernels.",
+   design="8/C14", technique="Coq/Coquelicot proofs + regenerated table and formula ties + float correspondence incl. captured nested closure",
+   note="Trusted: Coq kernel; Reals/Coquelicot axioms listed in evidence; translators gen_tables/gen_formulas; FloatFun; floating-point rounding of the implementation is bounded per case only."),
+
  "C07": dict(
    text="Proof: Coq theorems (real instance of the polymorphic model Model/Eject.v) that the ejection loop removes exactly the requested mass, "
         "heaviest bin first, with the stated cut structure, mean-mass preservation, non-negativity and the ValueError on over-ejection, for ALL lists "
